@@ -347,7 +347,7 @@ func zzRet[T any](name string) T { panic("spec only") }
 
 //@ func (*connection).writeFrame
 //@ nosafety nil-deref nil-iface
-//@ requires c != nil && e != nil && msg != nil
+//@ requires c != nil && e != nil && msg != nil && specRealMsg(msg)
 //@ emits hsms.(transport).Write, hsms.(*ConnectionMetrics).incDataMsgSend, hsms.(*connection).dropNotSelected, hsms.(*ConnectionMetrics).incDataMsgDropNotSelected, hsms.(*connection).TCPDown, IsSelected:true, IsSelected:false, hsms.(*epoch).liveConn
 //@ ensures [gate]  specIsData(msg) && zzCalls("IsSelected:false") > 0 ==>
 //@                 zzCalls("hsms.(transport).Write") == 0 && result == ErrNotSelectedState && zzCalls("hsms.(*connection).dropNotSelected") == 1
@@ -368,7 +368,7 @@ func specIsRejectErr(err error) bool { _, ok := err.(*RejectError); return ok }
 //@ func (*connection).sendWaitReply
 //@ nosafety nil-deref nil-iface
 //@ requires c != nil && msg != nil && specRealMsg(msg)
-//@ emits hsms.(transport).Write, hsms.(*ConnectionMetrics).incDataMsgSend, hsms.(*connection).dropNotSelected, hsms.(*ConnectionMetrics).incDataMsgDropNotSelected, hsms.(*connection).TCPDown, IsSelected:true, IsSelected:false, hsms.(*ConnectionMetrics).incDataMsgInflight, hsms.(*ConnectionMetrics).decDataMsgInflight, hsms.(*ConnectionMetrics).incDataMsgErr, hsms.(*connection).sendAutoS9F9, hsms.(*replyRegistry).register, hsms.(*replyRegistry).deregister
+//@ emits hsms.(transport).Write, hsms.(*ConnectionMetrics).incDataMsgSend, hsms.(*connection).dropNotSelected, hsms.(*ConnectionMetrics).incDataMsgDropNotSelected, hsms.(*connection).TCPDown, IsSelected:true, IsSelected:false, hsms.(*epoch).liveConn, hsms.(*ConnectionMetrics).incDataMsgInflight, hsms.(*ConnectionMetrics).decDataMsgInflight, hsms.(*ConnectionMetrics).incDataMsgErr, hsms.(*connection).sendAutoS9F9, hsms.(*replyRegistry).register, hsms.(*replyRegistry).deregister
 //@ ensures [gate]     specIsData(msg) && zzCalls("IsSelected:false") > 0 ==> zzCalls("hsms.(transport).Write") == 0 &&
 //@                    result1 == ErrNotSelectedState && zzCalls("hsms.(*ConnectionMetrics).incDataMsgDropNotSelected") == 1 && result0 == nil
 //@ ensures [once]     zzCalls("hsms.(transport).Write") <= 1 && zzCalls("hsms.(*ConnectionMetrics).incDataMsgDropNotSelected") <= 1
@@ -391,8 +391,8 @@ func specIsRejectErr(err error) bool { _, ok := err.(*RejectError); return ok }
 
 //@ func (*connection).sendNoReply
 //@ nosafety nil-deref nil-iface
-//@ requires c != nil && msg != nil
-//@ emits hsms.(transport).Write, hsms.(*ConnectionMetrics).incDataMsgSend, hsms.(*connection).dropNotSelected, hsms.(*ConnectionMetrics).incDataMsgDropNotSelected, hsms.(*connection).TCPDown, IsSelected:true, IsSelected:false, hsms.(*ConnectionMetrics).incDataMsgErr
+//@ requires c != nil && msg != nil && specRealMsg(msg)
+//@ emits hsms.(transport).Write, hsms.(*ConnectionMetrics).incDataMsgSend, hsms.(*connection).dropNotSelected, hsms.(*ConnectionMetrics).incDataMsgDropNotSelected, hsms.(*connection).TCPDown, IsSelected:true, IsSelected:false, hsms.(*epoch).liveConn, hsms.(*ConnectionMetrics).incDataMsgErr
 //@ ensures [gate]  specIsData(msg) && zzCalls("IsSelected:false") > 0 ==> zzCalls("hsms.(transport).Write") == 0 &&
 //@                 result == ErrNotSelectedState && zzCalls("hsms.(*ConnectionMetrics).incDataMsgDropNotSelected") == 1
 //@ ensures [once]  zzCalls("hsms.(transport).Write") <= 1
@@ -401,7 +401,7 @@ func specIsRejectErr(err error) bool { _, ok := err.(*RejectError); return ok }
 
 //@ func (*connection).SendAsync
 //@ nosafety nil-deref nil-iface
-//@ requires c != nil && msg != nil
+//@ requires c != nil && msg != nil && specRealMsg(msg)
 //@ emits hsms.(*connection).dropNotSelected, hsms.(*ConnectionMetrics).incDataMsgDropNotSelected, IsSelected:true, IsSelected:false, chan.send
 //@ ensures [gate]  specIsData(msg) && zzCalls("IsSelected:false") > 0 ==> zzCalls("chan.send") == 0 &&
 //@                 result == ErrNotSelectedState && zzCalls("hsms.(*ConnectionMetrics).incDataMsgDropNotSelected") == 1
@@ -458,15 +458,15 @@ func specBadData(stream, function byte, w bool, item secs2.Item) bool {
 // The runtime methods the session calls are the connection methods proved above.
 //@ func (*connection).WriteMessage
 //@ nosafety nil-deref nil-iface
-//@ requires c != nil && msg != nil
-//@ emits hsms.(transport).Write, hsms.(*ConnectionMetrics).incDataMsgSend, hsms.(*connection).dropNotSelected, hsms.(*ConnectionMetrics).incDataMsgDropNotSelected, hsms.(*connection).TCPDown, IsSelected:true, IsSelected:false, hsms.(*ConnectionMetrics).incDataMsgInflight, hsms.(*ConnectionMetrics).decDataMsgInflight, hsms.(*ConnectionMetrics).incDataMsgErr, hsms.(*connection).sendAutoS9F9, hsms.(*replyRegistry).register, hsms.(*replyRegistry).deregister
+//@ requires c != nil && msg != nil && specRealMsg(msg)
+//@ emits hsms.(transport).Write, hsms.(*ConnectionMetrics).incDataMsgSend, hsms.(*connection).dropNotSelected, hsms.(*ConnectionMetrics).incDataMsgDropNotSelected, hsms.(*connection).TCPDown, IsSelected:true, IsSelected:false, hsms.(*epoch).liveConn, hsms.(*ConnectionMetrics).incDataMsgInflight, hsms.(*ConnectionMetrics).decDataMsgInflight, hsms.(*ConnectionMetrics).incDataMsgErr, hsms.(*connection).sendAutoS9F9, hsms.(*replyRegistry).register, hsms.(*replyRegistry).deregister
 //@ ensures [gate] specIsData(msg) && zzCalls("IsSelected:false") > 0 ==> zzCalls("hsms.(transport).Write") == 0 &&
 //@                result1 == ErrNotSelectedState && zzCalls("hsms.(*ConnectionMetrics).incDataMsgDropNotSelected") == 1
 
 //@ func (*connection).WriteMessageNoReply
 //@ nosafety nil-deref nil-iface
-//@ requires c != nil && msg != nil
-//@ emits hsms.(transport).Write, hsms.(*ConnectionMetrics).incDataMsgSend, hsms.(*connection).dropNotSelected, hsms.(*ConnectionMetrics).incDataMsgDropNotSelected, hsms.(*connection).TCPDown, IsSelected:true, IsSelected:false, hsms.(*ConnectionMetrics).incDataMsgErr
+//@ requires c != nil && msg != nil && specRealMsg(msg)
+//@ emits hsms.(transport).Write, hsms.(*ConnectionMetrics).incDataMsgSend, hsms.(*connection).dropNotSelected, hsms.(*ConnectionMetrics).incDataMsgDropNotSelected, hsms.(*connection).TCPDown, IsSelected:true, IsSelected:false, hsms.(*epoch).liveConn, hsms.(*ConnectionMetrics).incDataMsgErr
 //@ ensures [gate] specIsData(msg) && zzCalls("IsSelected:false") > 0 ==> zzCalls("hsms.(transport).Write") == 0 &&
 //@                result == ErrNotSelectedState && zzCalls("hsms.(*ConnectionMetrics).incDataMsgDropNotSelected") == 1
 
